@@ -82,7 +82,7 @@ def levelsOp (path rows : String) : String :=
     match parseVal (.rep :: p) (rows.length + 1) rows.toList with
     | some (rs, []) =>
       let es := shredCol p (rs : List (ValOf p))
-      let back := match assembleCol p (es.length + 1) es with
+      let back := match assembleCol p es with
         | some rs' => showVal (.rep :: p) rs'
         | none => "assemble-failed"
       if back = showVal (.rep :: p) rs then showEntries es
